@@ -1736,17 +1736,28 @@ func (p *parser) domainTextLitEx(off, end token.Pos) *ast.DomainTextLitEx {
 
 	var args []ast.Expr
 	var sp parser
-	sp.initSub(file, src, int(off)-base, 0)
+	func() {
+		defer func() {
+			if e := recover(); e != nil {
+				if _, ok := e.(bailout); !ok {
+					panic(e)
+				}
+			}
+			// report the errors of the sub-parser (they were dropped, leaving Bad nodes behind a nil error)
+			p.errors = append(p.errors, sp.errors...)
+		}()
+		sp.initSub(file, src, int(off)-base, 0)
 
-	for {
-		expr := sp.parseRHS()
-		args = append(args, expr)
-		if sp.tok != token.COMMA {
-			break
+		for {
+			expr := sp.parseRHS()
+			args = append(args, expr)
+			if sp.tok != token.COMMA {
+				break
+			}
+			sp.next()
 		}
-		sp.next()
-	}
-	sp.expect(token.SEMICOLON)
+		sp.expect(token.SEMICOLON)
+	}()
 	return &ast.DomainTextLitEx{
 		Args:   args,
 		RawPos: sp.pos,
